@@ -332,6 +332,7 @@ def gen_pair(rng, tier):
 
 
 class C06Check(core.Check):
+    state_measure = 'distinct digests of the sequences yielded by the four API calls (per pair and schedule): a proxy for distinct set-iteration interleavings'
     id = 'C06'
     world = 'H'
     chunk = 10
